@@ -276,6 +276,10 @@ int setup_perf_data(struct uftrace_data *handle)
 		perf[i].fp = fopen(globbuf.gl_pathv[i], "r");
 		if (perf[i].fp == NULL)
 			pr_err("open failed: %s", globbuf.gl_pathv[i]);
+
+		/* the position in the (sorted, maybe sparse) glob result is not the cpu number */
+		if (sscanf(uftrace_basename(globbuf.gl_pathv[i]), "perf-cpu%d.dat", &perf[i].cpu) != 1)
+			perf[i].cpu = i;
 	}
 
 	handle->nr_perf = globbuf.gl_pathc;
